@@ -181,7 +181,14 @@ impl<H: Hal, T: Transport> VirtIOGpu<H, T> {
         self.rect = Some(rect);
         self.resource_create_2d(RESOURCE_ID_FB, width, height)?;
 
-        let size = width * height * 4;
+        // 4 bytes per pixel; refuse resolutions whose frame buffer size doesn't fit in 32 bits.
+        let size = match width.checked_mul(height) {
+            Some(pixels) => match pixels.checked_mul(4) {
+                Some(size) => size,
+                None => return Err(Error::InvalidParam),
+            },
+            None => return Err(Error::InvalidParam),
+        };
         let frame_buffer_dma = Dma::new(
             pages(size as usize),
             BufferDirection::DriverToDevice,
